@@ -722,3 +722,85 @@ def position_constructor_cases(F, name):
                 a = {("var", params[0]): ("lit", r), ("var", params[1]): ("lit", c)}
                 out.append(((r, c), ctor(hir.fold(nf, a))))
     return out
+
+
+# ---------------------------------------------------------------------------
+# intervals of normal forms (a small evaluator for arguments that the MIR interval analysis cannot follow through calls)
+
+def pattern_ranges(fn_hir):
+    """{binding name: (lo, hi)} for names bound with a range sub-pattern (`file @ b'a'..=b'h'`)"""
+    out = {}
+    for n, _ in hir.walk(fn_hir["body"]):
+        pass
+    stack = [fn_hir["body"]]
+    while stack:
+        x = stack.pop()
+        if isinstance(x, list):
+            stack.extend(x)
+            continue
+        if not isinstance(x, dict):
+            continue
+        if x.get("k") == "PBind" and isinstance(x.get("sub"), dict) and x["sub"].get("k") == "PRange":
+            lo, hi = (x["sub"].get("lo") or {}).get("v"), (x["sub"].get("hi") or {}).get("v")
+            if isinstance(lo, str) and len(lo) == 1:
+                lo = ord(lo)
+            if isinstance(hi, str) and len(hi) == 1:
+                hi = ord(hi)
+            if isinstance(lo, int) and isinstance(hi, int):
+                out[x["name"]] = (lo, hi if "Included" in str(x["sub"].get("end")) else hi - 1)
+        stack.extend(v for k_, v in x.items() if isinstance(v, (dict, list)) and k_ not in ("sp", "osp"))
+    return out
+
+
+def term_interval(t, ranges):
+    """(lo, hi) of an integer normal form over variables with known ranges, or None.  Understands literals, + - *, unary minus,
+    integer casts (value-preserving when the range fits; otherwise None), row/col of a constructed Position, if/match (hull)."""
+    if not isinstance(t, tuple) or not t:
+        return None
+    h = t[0]
+    if h == "lit" and isinstance(t[1], int) and not isinstance(t[1], bool):
+        return (t[1], t[1])
+    if h == "lit" and isinstance(t[1], str) and len(t[1]) == 1:
+        return (ord(t[1]), ord(t[1]))
+    if h == "var":
+        return ranges.get(t[1])
+    if h in ("un", "deref") and isinstance(t[-1], tuple):
+        return term_interval(t[-1], ranges)
+    if h == "neg":
+        a = term_interval(t[1], ranges)
+        return (-a[1], -a[0]) if a else None
+    if h == "bin" and t[1] in ("+", "-", "*"):
+        a, b = term_interval(t[2], ranges), term_interval(t[3], ranges)
+        if a is None or b is None:
+            return None
+        if t[1] == "+":
+            return (a[0] + b[0], a[1] + b[1])
+        if t[1] == "-":
+            return (a[0] - b[1], a[1] - b[0])
+        c = [a[0] * b[0], a[0] * b[1], a[1] * b[0], a[1] * b[1]]
+        return (min(c), max(c))
+    if h == "cast":
+        a = term_interval(t[1], ranges)
+        lim = {"i8": (-128, 127), "u8": (0, 255), "i16": (-32768, 32767), "u16": (0, 65535), "i32": (-2 ** 31, 2 ** 31 - 1), "u32": (0, 2 ** 32 - 1),
+               "usize": (0, 2 ** 64 - 1), "isize": (-2 ** 63, 2 ** 63 - 1), "u64": (0, 2 ** 64 - 1), "i64": (-2 ** 63, 2 ** 63 - 1)}.get(t[2])
+        if a is None or lim is None or a[0] < lim[0] or a[1] > lim[1]:
+            return None
+        return a
+    if h == "call" and isinstance(t[1], str) and t[1].endswith(("Position::row", "Position::col")) and len(t[2]) == 1:
+        p0 = t[2][0]
+        if p0[:1] == ("pos",):
+            v = p0[1] if t[1].endswith("row") else p0[2]
+            return (v, v)
+        if p0[0] == "call" and str(p0[1]).endswith(("Position::new_assert", "Position::new_unsafe")) and len(p0[2]) == 2:
+            return term_interval(p0[2][0] if t[1].endswith("row") else p0[2][1], ranges)
+        return None
+    if h == "if" and len(t) == 4:
+        a, b = term_interval(t[2], ranges), term_interval(t[3], ranges)
+        return (min(a[0], b[0]), max(a[1], b[1])) if a and b else None
+    if h == "match":
+        parts = [term_interval(b, ranges) for _, _, b in t[2] if b[:1] not in (("ret",), ("panic",))]
+        if parts and all(parts):
+            return (min(p_[0] for p_ in parts), max(p_[1] for p_ in parts))
+        return None
+    return None
+
